@@ -1813,6 +1813,13 @@ class MMSEIASolver(IterativeIASolverBaseClass):
 
                 # Now that we have the best value for mu_i, lets calculate Vi
                 Vi = self._calc_Vi_for_a_given_mu(sum_term, mu_i, Hii_herm_U)
+
+                # The value of mu_i is only found up to the tolerance of the
+                # optimization method and the power can end up slightly
+                # above the available power. Scale Vi down if that happens.
+                norm_Vi = np.linalg.norm(Vi, 'fro')
+                if norm_Vi**2 > self.P[i]:
+                    Vi = Vi * (np.sqrt(self.P[i]) / norm_Vi)
                 # Vi = self._calc_Vi_for_a_given_mu2(
                 #     inv_sum_term, mu_i, Hii_herm_U)
 
